@@ -46,7 +46,7 @@ fn alphabet(tier: Tier) -> Vec<&'static str> {
         "X EXISTS ka kb kc", "X EXISTS ka ka", "X MGET ka kb kc", "X MSET ka 1 kb 2 kc 3", "X MSETNX ka 1 kc 2", "X MSETNX kc 9",
         "X RPUSH ka a b", "X RPUSH kc q", "X LRANGE ka 0 -1", "X LRANGE kc 0 -1", "X RPOPLPUSH ka kc", "X LMOVE kc ka LEFT RIGHT",
         "X RENAME ka kc", "X RENAMENX kc kb", "X SADD kc m", "X SMEMBERS kc", "X HSET kb f v", "X HGETALL kb", "X ZADD kc 1 m",
-        "X SORT ka STORE kc", "X KEYS *", "SCANALL", "SCANALL 1", "X DBSIZE", "X RANDOMKEY", "X FLUSHDB", "X TYPE ka", "X TYPE kc",
+        "X SORT ka STORE kc", "X KEYS *", "X KEYS kc", "X KEYS [k]ey[0-9]", "X KEYS k?y*", "SCANALL", "SCANALL 1", "X DBSIZE", "X RANDOMKEY", "X FLUSHDB", "X TYPE ka", "X TYPE kc",
         "X EXPIRE ka 100", "X TTL ka", "ADV 100000",
         "X EVAL redis.call('SET',KEYS[1],'p');redis.call('SET',KEYS[2],'q');return\\x201 2 ka kc",
         "X EVAL return\\x20redis.call('GET',KEYS[1]) 1 kc",
@@ -344,6 +344,7 @@ fn main() {
         let (keys, info) = pick_keys(n);
         let mut bfs = Bfs::new(alpha.len(), depth);
         bfs.deadline = Some(Instant::now() + budget);
+        bfs.probe_duplicates = args.tier == Tier::Quick;
         let stats = bfs.run(&format!("t={T0} <empty>"), |hist, o| {
             let h: Vec<&str> = hist.iter().map(|i| alpha[*i as usize]).collect();
             let op = alpha[o as usize];
